@@ -112,6 +112,12 @@ where
         S: DataMut,
     {
         let n = self.len();
+        assert!(
+            i < n,
+            "index out of bounds: the array has length {} but the index is {}",
+            n,
+            i
+        );
         if n == 1 {
             self[0].clone()
         } else {
@@ -141,6 +147,14 @@ where
         let mut deduped_indexes: Vec<usize> = indexes.to_vec();
         deduped_indexes.sort_unstable();
         deduped_indexes.dedup();
+        if let Some(max_index) = deduped_indexes.last() {
+            assert!(
+                *max_index < self.len(),
+                "index out of bounds: the array has length {} but the index is {}",
+                self.len(),
+                max_index
+            );
+        }
 
         get_many_from_sorted_mut_unchecked(self, &deduped_indexes)
     }
